@@ -933,7 +933,7 @@ static void gen_helpers(fb_output_t *out)
             "static inline T ## _ ## K ## t C ## _ ## N ## _as_root_with_identifier(C ## _ ## table_t t__tmp, const char *fid__tmp)\\\n"
             "{ const uint8_t *buffer__tmp = C ## _ ## N ## _get(t__tmp); return __%sread_root(T, K, buffer__tmp, fid__tmp); }\\\n"
             "static inline T ## _ ## K ## t C ## _ ## N ## _as_typed_root(C ## _ ## table_t t__tmp)\\\n"
-            "{ const uint8_t *buffer__tmp = C ## _ ## N ## _get(t__tmp); return __%sread_root(T, K, buffer__tmp, C ## _ ## type_identifier); }\\\n"
+            "{ const uint8_t *buffer__tmp = C ## _ ## N ## _get(t__tmp); return __%sread_typed_root(T, K, buffer__tmp, T ## _type_hash); }\\\n"
             "static inline T ## _ ## K ## t C ## _ ## N ## _as_root(C ## _ ## table_t t__tmp)\\\n"
             "{ const char *fid__tmp = T ## _file_identifier;\\\n"
             "  const uint8_t *buffer__tmp = C ## _ ## N ## _get(t__tmp); return __%sread_root(T, K, buffer__tmp, fid__tmp); }\n",
